@@ -449,14 +449,22 @@ func (p *Proxy) handleConnectRequest(ctx *Context, req *http.Request, session *S
 			return nil
 		}
 
+		// Like every other response: when the client asked for it or the proxy is shutting
+		// down, the response says that the connection is closed after it.
+		var closing error
+		if req.Close || res.Close || p.Closing() {
+			res.Close = true
+			closing = errClose
+		}
 		if err := res.Write(brw); err != nil {
 			log.Errorf("martian: got error while writing response back to client: %v", err)
+			closing = errClose
 		}
-		err := brw.Flush()
-		if err != nil {
+		if err := brw.Flush(); err != nil {
 			log.Errorf("martian: got error while flushing response back to client: %v", err)
+			closing = errClose
 		}
-		return err
+		return closing
 	}
 	defer res.Body.Close()
 	defer cconn.Close()
